@@ -42,7 +42,7 @@ res['patch_applies_on_demo'] = r.returncode == 0
 fails, tails = [], []
 for flt in tests or ['']:
     r = sh('cargo test --offline %s %s 2>&1 | tail -40' % (target, flt))
-    fails.append('test result: FAILED' in r.stdout or 'panicked' in r.stdout)
+    fails.append('test result: FAILED' in r.stdout or 'panicked' in r.stdout or 'SIGABRT' in r.stdout or 'stack overflow' in r.stdout)
     tails.append(r.stdout[-900:])
 res['patch_plus_demo_fails'] = any(fails)
 res['patch_plus_demo_tail'] = '\n'.join(x for x, f in zip(tails, fails) if f)[-1800:]
